@@ -19,7 +19,8 @@
 (*    ObsCanonical holds).  A legacy index that left the modelled depth (ovf) or drifted, and *)
 (*    a repaired index whose logged state is not canonical, is "lost": nothing more is        *)
 (*    predicted about it until the next Reset (the property predicates go on being checked). *)
-(* Many runs are concatenated; a Reset line starts a new one (and chooses the threshold).     *)
+(* Many runs are concatenated; a Reset line starts a new one and carries every index's own   *)
+(* threshold and divide-factor exponent (par).                                                *)
 EXTENDS LdiffMC, VerifEmit
 
 ASSUME HwReset /\ TLCSet(3, 0)
@@ -30,7 +31,7 @@ VARIABLES l,         \* next line
           lastDiff,  \* the last logged diff line (or [ev |-> "none"])
           lost,      \* legacy peers the model no longer describes
           drift      \* number of lines the model did not predict
-tvars == <<idx, th, l, obs, lastDiff, lost, drift>>
+tvars == <<idx, l, obs, lastDiff, lost, drift>>
 
 (* ---- projections ---- *)
 Idx(s) == 1..Len(s)
@@ -48,7 +49,7 @@ ModelProj(x) == [mat  |-> x.mat,
                  cont |-> x.cont]
 
 (* ---- property predicates on logged observations ---- *)
-ObsCanonical == \A p \in Peers \ Legacy : ObsProj(obs[p]) = ModelProj(Fresh(ObsCont(obs[p])))
+ObsCanonical == \A p \in Peers \ Legacy : ObsProj(obs[p]) = ModelProj(FreshLike(idx[p], ObsCont(obs[p])))
 
 SeqSet(s) == {s[k] : k \in Idx(s)}
 NoDup(s)  == Cardinality(SeqSet(s)) = Len(s)
@@ -68,11 +69,11 @@ ObsDiffExact ==
 IsEvent(e) == l <= Len(Trace) /\ Trace[l].ev = e /\ l' = l + 1
 
 \* the model's next index for peer p, given what the action computes and what was logged
-Adopt(p, computed, st) ==
+Adopt(p, computed, st) ==     \* FreshLike: the fresh index with this peer's own threshold / divide factor
     IF p \in lost THEN [ix |-> computed, ok |-> TRUE, lose |-> FALSE]
     ELSE IF ModelProj(computed) = ObsProj(st) /\ ~computed.ovf THEN [ix |-> computed, ok |-> TRUE, lose |-> FALSE]
     ELSE IF p \in Legacy THEN [ix |-> computed, ok |-> computed.ovf, lose |-> TRUE]
-    ELSE IF ModelProj(Fresh(ObsCont(st))) = ObsProj(st) THEN [ix |-> Fresh(ObsCont(st)), ok |-> FALSE, lose |-> FALSE]
+    ELSE IF ModelProj(FreshLike(computed, ObsCont(st))) = ObsProj(st) THEN [ix |-> FreshLike(computed, ObsCont(st)), ok |-> FALSE, lose |-> FALSE]
     ELSE [ix |-> computed, ok |-> FALSE, lose |-> TRUE]    \* not canonical (ObsCanonical fails): cannot follow
 
 Step(p, computed, st) ==
@@ -82,7 +83,6 @@ Step(p, computed, st) ==
         /\ lost' = IF a.lose THEN lost \cup {p} ELSE lost
         /\ drift' = IF a.ok THEN drift ELSE drift + 1
         /\ lastDiff' = [ev |-> "none"]
-        /\ UNCHANGED th
 
 TrSet == /\ IsEvent("Set")
          /\ LET e == Trace[l] IN Step(e.peer, DoSet(idx[e.peer], e.els, FixSet(e.peer)), e.st)
@@ -103,18 +103,16 @@ TrDiff ==
                         ELSE BagOf(SeqSet(e.ours)) = res.acc.ours /\ BagOf(SeqSet(e.theirs)) = res.acc.theirs
        IN  /\ lastDiff' = e
            /\ drift' = IF lost # {} \/ same THEN drift ELSE drift + 1
-    /\ UNCHANGED <<idx, th, obs, lost>>
+    /\ UNCHANGED <<idx, obs, lost>>
 TrReset ==
     /\ IsEvent("Reset")
-    /\ th' = Trace[l].th
-    /\ idx' = [p \in Peers |-> NewIndex]     \* NewIndex does not depend on th
+    /\ idx' = [p \in Peers |-> NewIndex(Trace[l].par[p].th, Trace[l].par[p].lg)]
     /\ obs' = Trace[l].st
     /\ lastDiff' = [ev |-> "none"] /\ lost' = {} /\ drift' = drift
 
 TraceInit ==
     /\ l = 2 /\ Trace[1].ev = "Reset"
-    /\ th = Trace[1].th
-    /\ idx = [p \in Peers |-> NewIndex]
+    /\ idx = [p \in Peers |-> NewIndex(Trace[1].par[p].th, Trace[1].par[p].lg)]
     /\ obs = Trace[1].st
     /\ lastDiff = [ev |-> "none"] /\ lost = {} /\ drift = 0
 TraceNext == TrSet \/ TrRemove \/ TrDiff \/ TrReset
